@@ -22,6 +22,8 @@ pub enum BoundCase {
     DynamicPr(DynCase),
     /// several queries on ONE solver object: each query has its own bound
     Script(crate::checks::config::ConfigCase),
+    /// a list query put to the complete and stable solvers: at most two calls per component
+    List(crate::checks::multi::MultiCase),
 }
 
 pub struct CallBound;
@@ -183,6 +185,58 @@ impl CallBound {
             rec.class("multi-component");
         }
         Ok(())
+    }
+
+    /// "CO and ST need at most two calls per component", also when 1-3 arguments spread over several
+    /// components are queried at once and when a certificate has to be completed on the other components:
+    /// every SAT solver instance the query creates (one per component it works on) may be called twice at
+    /// most, and the whole query 2 x (number of components) times.
+    fn list(&self, mc: &crate::checks::multi::MultiCase, rec: &mut Rec) -> CheckResult {
+        use crate::queries::SolverObj;
+        if mc.gc.g.n == 0 || mc.picks.is_empty() || mc.gc.g.n > 13 {
+            return Ok(());
+        }
+        let g = G::new(mc.gc.g.n, &mc.gc.g.att_usize());
+        let ncomp = g.components().len();
+        let list = crate::checks::multi::resolve_picks(&g, &mc.gc.g.att, mc.mode % 3, &mc.picks);
+        rec.class(&format!("list-query-on-{}-components", ncomp.min(4)));
+        macro_rules! go {
+            ($af:expr, $labels:expr) => {{
+                let refs: Vec<_> = list.iter().map(|a| &$labels[*a]).collect();
+                for (q, sem, enc) in [(Q::DC, Sem::CO, Enc::AuxCo), (Q::DC, Sem::ST, Enc::Stable), (Q::DS, Sem::ST, Enc::Stable)] {
+                    for cert in [false, true] {
+                        rec.eval();
+                        let shared = Shared::recording(usize::MAX);
+                        let r = crate::util::guard(|| {
+                            let mut s = SolverObj::new($af, kind_for(q, sem), enc, satwrap::factory(&shared));
+                            if q == Q::DC {
+                                s.dc(&refs, cert).0
+                            } else {
+                                s.ds(&refs, cert).0
+                            }
+                        });
+                        let sig = format!("C18/list/{}-{}/{}", q.name(), sem.name(), if cert { "with-certificate" } else { "plain" });
+                        if let Err(p) = r {
+                            return Err(Failure::new(format!("{}/panic", sig), p));
+                        }
+                        let per_instance: Vec<usize> = shared.instances.borrow().iter().map(|i| i.calls.len()).collect();
+                        let total: usize = per_instance.iter().sum();
+                        if per_instance.iter().any(|c| *c > 2) || total > 2 * ncomp {
+                            return Err(Failure::new(
+                                format!("{}/more-than-two-calls-per-component", sig),
+                                format!("list {:?}: SAT calls per solver instance {:?} (total {}) on a framework of {} component(s)", list, per_instance, total, ncomp),
+                            ));
+                        }
+                    }
+                }
+                Ok(())
+            }};
+        }
+        match build(&mc.gc) {
+            Built::U(af, labels) => go!(&af, labels),
+            Built::S(af, labels) => go!(&af, labels),
+            Built::C(af, labels) => go!(&af, labels),
+        }
     }
 
     fn script(&self, case: &crate::checks::config::ConfigCase, rec: &mut Rec) -> CheckResult {
@@ -374,7 +428,10 @@ impl Prop for CallBound {
         let dynpr = (0u8..FACTORS.len() as u8, vec(dynamic::op_strategy(false), 5..=maxlen))
             .prop_map(|(factor, ops)| BoundCase::DynamicPr(DynCase { kind: DynKind::Pr, factor, ops, groups: 1 }));
         let script = crate::checks::config::Config.small_strategy(tier).prop_map(BoundCase::Script);
-        prop_oneof![70 => stat, 15 => dynpr, 15 => script, 2 => medium].boxed()
+        let list = (prop_oneof![3 => gen::graph_multi(9), 1 => gen::graph(9)], gen::pres(9), 0u8..3, vec(any::<u16>(), 1..=3))
+            .prop_filter("needs an argument", |(g, _, _, _)| g.n >= 1)
+            .prop_map(|(g, pres, mode, picks)| BoundCase::List(crate::checks::multi::MultiCase { gc: GraphCase { g, pres }, mode, picks, choice: (0, 0) }));
+        prop_oneof![70 => stat, 15 => dynpr, 15 => script, 2 => medium, 10 => list].boxed()
     }
     fn n_cases(&self, tier: Tier) -> u32 {
         tier.pick(300_000, 5_000_000)
@@ -389,6 +446,7 @@ impl Prop for CallBound {
             BoundCase::Static(pc) => self.stat(pc, rec),
             BoundCase::DynamicPr(dc) => self.dynpr(dc, rec),
             BoundCase::Script(sc) => self.script(sc, rec),
+            BoundCase::List(mc) => self.list(mc, rec),
         }
     }
 }
